@@ -51,7 +51,7 @@ Section I.
   Lemma init_writes : forall w h w1 ci d,
     (h < length (w_hs w))%nat ->
     sp_access frepr w h = (w1, inl ci) ->
-    c_data (getC w1 ci) = d -> calc_id frepr d = h_id (getH w h) ->
+    c_data (getC w1 ci) = d -> calc_id frepr d = h_id (getH w h) -> is_null d = false ->
     let wsd := wsp (getS w (h_s (getH w h))) in
     let jd := wsd ++ [h_id (getH w h)] in
     get (w_fs w) (jd ++ [SPF]) = None ->
@@ -66,7 +66,7 @@ Section I.
                  /\ h_cached (getH w' k) = h_cached (getH w1 k)) /\
       (forall k, s_root (getS w' k) = s_root (getS w k)).
   Proof.
-    intros w h w1 ci d Hlt E1 Hd Hid wsd jd Hfile Htmp Hdir.
+    intros w h w1 ci d Hlt E1 Hd Hid Hnn wsd jd Hfile Htmp Hdir.
     destruct (sp_access_cell w h w1 ci Hlt E1) as [Hc1 [Hid1 Hs1]].
     pose proof (sp_access_fs frepr w h) as Hfs1. rewrite E1 in Hfs1. simpl in Hfs1. destruct Hfs1 as [Hfs1 _].
     assert (Hroot1 : forall k, s_root (getS w1 k) = s_root (getS w k)).
@@ -80,7 +80,8 @@ Section I.
     unfold init. rewrite E1.
     assert (Hl1 : exists e, load_file frepr w1 (getH w1 h) = inr e).
     { unfold load_file, spfile. rewrite Hjd1, Hfs1, Hfile. eauto. }
-    destruct Hl1 as [e1 Hl1]. rewrite Hl1. rewrite Hjd1, Hfs1.
+    destruct Hl1 as [e1 Hl1]. rewrite Hl1.
+    rewrite (sp_access_idem w1 h ci Hc1). rewrite Hjd1, Hfs1.
     (* the directory *)
     set (f := w_fs w) in *.
     assert (Hmk : exists f2 e2,
@@ -119,7 +120,7 @@ Section I.
     assert (Hl4 : load_file frepr w4 (getH w2 h) = inl d).
     { unfold load_file. replace (spfile w4 (getH w2 h)) with (jd ++ [SPF]) by (symmetry; exact Hfile2).
       change (w_fs w4) with f4. rewrite G4, path_eqb_refl. simpl.
-      rewrite Hh2. simpl. rewrite Hid1, Hid, str_eqb_refl. reflexivity. }
+      rewrite Hh2. simpl. rewrite Hid1, Hid, str_eqb_refl, Hnn. reflexivity. }
     rewrite Hl4.
     eexists. split; [reflexivity|]. split; [|split].
     - intro q. change (w_fs (register (cell_loaded w4 ci d) (h_s (getH w2 h)) (h_id (getH w2 h)) d)) with f4.
